@@ -5,12 +5,70 @@ package main
 
 import (
 	"encoding/json"
+	"flag"
 	"fmt"
 	"os"
 	"runtime"
+	"sort"
 
+	seccomp "github.com/elastic/go-seccomp-bpf"
 	"github.com/elastic/go-seccomp-bpf/arch"
 )
+
+// useTables is the history of -history (Tables!Use): the package's tables are consulted the way its users consult them - every
+// architecture's own names, and every name that only OTHER tables have (alone, as a conditional entry, and all together), are
+// compiled for that architecture - before anything is dumped. The tables are data: no use of the package may change them.
+func useTables(tabled []*arch.Info) (uses int) {
+	try := func(a *arch.Info, g seccomp.SyscallGroup) {
+		defer func() { recover() }()
+		g.Action = seccomp.ActionErrno
+		p := seccomp.Policy{DefaultAction: seccomp.ActionAllow, Syscalls: []seccomp.SyscallGroup{g}}
+		seccomp.VerifSetArch(&p, a)
+		p.Assemble()
+		uses++
+	}
+	for _, a := range tabled {
+		var own, foreign []string
+		seen := map[string]bool{}
+		for n := range a.SyscallNames {
+			own = append(own, n)
+		}
+		for _, o := range tabled {
+			for n := range o.SyscallNames {
+				if _, ok := a.SyscallNames[n]; !ok && !seen[n] {
+					seen[n] = true
+					foreign = append(foreign, n)
+				}
+			}
+		}
+		sort.Strings(own)
+		sort.Strings(foreign)
+		try(a, seccomp.SyscallGroup{Names: own})
+		for _, f := range foreign {
+			try(a, seccomp.SyscallGroup{Names: []string{f}})
+			try(a, seccomp.SyscallGroup{NamesWithCondtions: []seccomp.NameWithConditions{{Name: f,
+				Conditions: []seccomp.Condition{{Argument: 0, Operation: seccomp.Equal, Value: 1}}}}})
+		}
+		try(a, seccomp.SyscallGroup{Names: append(append([]string{}, own[:3]...), foreign...)})
+	}
+	return
+}
+
+func copyNames(m map[string]int) map[string]int {
+	o := map[string]int{}
+	for k, v := range m {
+		o[k] = v
+	}
+	return o
+}
+
+func copyNumbers(m map[int]string) map[int]string {
+	o := map[int]string{}
+	for k, v := range m {
+		o[k] = v
+	}
+	return o
+}
 
 type info struct {
 	Var     string         `json:"var"`
@@ -29,6 +87,8 @@ type lookup struct {
 }
 
 func main() {
+	history := flag.Bool("history", false, "use the tables (compilations with own and foreign names) before dumping them")
+	flag.Parse()
 	vars := []struct {
 		v string
 		i *arch.Info
@@ -43,7 +103,22 @@ func main() {
 		GOARCH  string   `json:"goarch"`
 		Arches  []info   `json:"arches"`
 		Lookups []lookup `json:"lookups"`
+		Uses    int      `json:"uses"`    // compilations performed before the dump (-history)
+		Changed []string `json:"changed"` // tables that differ from what they were when the process started
 	}{GOARCH: runtime.GOARCH}
+	fresh := map[string]info{}
+	for _, v := range vars {
+		fresh[v.v] = info{Numbers: copyNumbers(v.i.SyscallNumbers), Names: copyNames(v.i.SyscallNames)}
+	}
+	if *history {
+		var tabled []*arch.Info
+		for _, v := range vars {
+			if len(v.i.SyscallNumbers) > 0 {
+				tabled = append(tabled, v.i)
+			}
+		}
+		out.Uses = useTables(tabled)
+	}
 	for _, v := range vars {
 		byPtr[v.i] = v.v
 		out.Arches = append(out.Arches, info{Var: v.v, Name: v.i.Name, ID: fmt.Sprintf("%#08x", uint32(v.i.ID)), Mask: v.i.SeccompMask,
@@ -74,5 +149,29 @@ func main() {
 		}()
 		out.Lookups = append(out.Lookups, l)
 	}
+	for _, v := range vars {
+		f := fresh[v.v]
+		for k, n := range v.i.SyscallNames {
+			if fn, ok := f.Names[k]; !ok || fn != n {
+				out.Changed = append(out.Changed, fmt.Sprintf("%s: SyscallNames[%q] = %d appeared or changed", v.v, k, n))
+			}
+		}
+		for k := range f.Names {
+			if _, ok := v.i.SyscallNames[k]; !ok {
+				out.Changed = append(out.Changed, fmt.Sprintf("%s: SyscallNames[%q] disappeared", v.v, k))
+			}
+		}
+		for k, n := range v.i.SyscallNumbers {
+			if fn, ok := f.Numbers[k]; !ok || fn != n {
+				out.Changed = append(out.Changed, fmt.Sprintf("%s: SyscallNumbers[%d] = %q appeared or changed", v.v, k, n))
+			}
+		}
+		for k := range f.Numbers {
+			if _, ok := v.i.SyscallNumbers[k]; !ok {
+				out.Changed = append(out.Changed, fmt.Sprintf("%s: SyscallNumbers[%d] disappeared", v.v, k))
+			}
+		}
+	}
+	sort.Strings(out.Changed)
 	json.NewEncoder(os.Stdout).Encode(out)
 }
